@@ -121,13 +121,17 @@ CHECKS = {
             "Lean 4 proofs over published-definition models + tolerance correspondence (Float instance) + independent reference-formula oracle"),
     "C08": ("full",
             "Lean theorems (C08.never_raises, mirror(+_index), sorted_desc, keys_sorted, size_le, worst_monotone, members_shown, copies_fresh, copies_frame, "
-            "pairwise_dissimilar, all_kept_while_room, best_of_seen(+_gt); pf_never_raises, pf_mirror, pf_sorted, pf_copies, pf_antichain, pf_exact, dom_meaning) hold for every "
-            "history of update batches, every capacity >= 1, every genome type and every linearly ordered scalar; model Core/Archive.lean (two parallel lists, CPython's "
-            "bisect loop, remove index arithmetic, to_remove deleted in reverse, fresh object ids for deep copies) is diffed against deap.tools.HallOfFame/ParetoFront after "
-            "every update on all histories of <=3 batches of <=2 from four 6-individual universes (thorough; 1.3M cases) plus random histories with re-submission and in-place "
-            "modification, and the statement itself is evaluated as an oracle on the real archive (incl. overwriting every submitted object after each update).",
-            TB + "Reading (DESIGN 6): similarity reflexive+symmetric, ignores identity, similar shown individuals have equal fitness (HoF); same number of objectives (Pareto); "
-            "transitivity not needed. deepcopy modelled as fresh object id (checked by the oracle); similarity callable pure; IEEE products of the dyadic test inputs exact.",
+            "pairwise_dissimilar (needs only a symmetric similarity), all_kept_while_room (reflexive+symmetric), best_of_seen(+_gt) (additionally: similar shown "
+            "individuals have equal fitness - best_of_seen_needs_fit shows by a concrete history that this hypothesis is necessary); pf_never_raises, pf_mirror, "
+            "pf_sorted, pf_copies, pf_antichain (any similarity, equal objective counts), pf_no_twins, pf_exact, dom_meaning) hold for every history of update batches, "
+            "every capacity >= 1, every genome type and every linearly ordered scalar; model Core/Archive.lean (two parallel lists, CPython's bisect loop, remove index "
+            "arithmetic, to_remove deleted in reverse, fresh object ids for deep copies) is diffed against deap.tools.HallOfFame/ParetoFront after every update on "
+            "exhaustive short histories from four 6-individual universes plus random histories (re-submission, in-place modification, near-tie and large-magnitude "
+            "fitnesses, batches of 11-40, capacities 16-40), and the statement is evaluated as an oracle on the real archive.",
+            TB + "Reading (DESIGN 6): the hall of fame identifies individuals by its similarity operator, so 'no distinct individual shown is strictly better than the "
+            "worst member' is claimed for evaluations where similar individuals carry equal fitness. The deep-copy clause is true by construction in the model "
+            "(copies_fresh/copies_frame/pf_copies hold for any copy discipline) and rests on the oracle, which after every update modifies every submitted object at "
+            "every level (nested genome, strategy, meta, fitness) and compares class, shape and attributes of the members. IEEE products of the test inputs exact.",
             "Lean 4 proof over a hand-written model + differential correspondence + oracle"),
     "C11": ("full",
             "Lean theorems (C11.complete_iff(+_count), typed_iff, searchSubtree_span/_total, height_eq/height_deepest, splice_welltyped/_complete, "
